@@ -755,6 +755,16 @@ theorem C03_instance_of_constructed (tbl : Table) (hw : WellFormed tbl) (ty : GT
   rw [C03_instance_passthrough tbl hw, (C03_entrypoints_agree tbl hw ty r).2.2.2.2, h]
   rfl
 
+/-- the same for the union: a geometry object that came out of a construction, handed to a field
+    annotated `Geometry`, is kept – which is what validating its original content would give -/
+theorem C03_union_instance_of_constructed (members : List Cls) (hm : MembersOk members) (ty : GType)
+    (r : Raw) (g : Geom) (h : validate ty r = .ok g) :
+    unionValidateInstance members (⟨ty, ty.tag, ty.tag⟩, (ty.tag, g)) =
+      unionValidate members (.mapping (some ty.tag) (some r)) := by
+  rw [C03_union_eq members hm, (ofTag_some ty.tag ty).2 rfl]
+  have hmem := hm.2 ty
+  simp [unionValidateInstance, hmem, h, Except.map]
+
 /-- Calls of `geometry_validate` under any signature that starts `(obj, mode="json", …defaults)`:
     positional, keyword, mixed, keywords in either order and the defaulted mode all run the body on
     the same `(obj, mode)`. -/
